@@ -43,7 +43,7 @@ func cfgFromRequest(r *http.Request, log *slog.Logger) (nowMS int, cfg *Response
 	uPath := r.URL.Path
 	u, err := url.Parse(uPath)
 	if err != nil {
-		return 0, nil, generateAndLogHttpError(log, "URL parsing", http.StatusInternalServerError)
+		return 0, nil, generateAndLogHttpError(log, "URL parsing", http.StatusBadRequest)
 	}
 
 	q := r.URL.Query()
